@@ -131,6 +131,15 @@ class SecondSlotCounter:
             counter_copy._slots = dict(self._slots)
         return counter_copy
 
+    def __getstate__(self):
+        # peer statistics can be pickled; a lock cannot
+        with self._lock:
+            return {"_maxage": self._maxage, "_slots": dict(self._slots)}
+
+    def __setstate__(self, state):
+        self.__dict__.update(state)
+        self._lock = threading.Lock()
+
     def add_count(self, count: int):
         """Increment counter by the given amount.
 
